@@ -552,6 +552,10 @@ pub const BESSEL_ABS_KAPPA: [f64; 7] = [16.0, 32.0, 256.0, 8192.0, 65536.0, 6553
 /// evaluated at exact operands (E^def of DESIGN 2.5).  None for primitive operations.
 pub fn defining_bound(op: Op, a: &[Val], u: f64) -> Option<Jet<DD>> {
     use Op::*;
+    if std::env::var("VERIF_NO_COMPOSITE").is_ok() {
+        // diagnosis only: shows what the composite rule grants (never set by a registered command)
+        return None;
+    }
     let op = op.canonical();
     let x = &a[0];
     if matches!(op, SphJ0 | SphJ1 | SphJ2) && x.v.re().abs_dd().hi < 1.0 {
